@@ -39,6 +39,9 @@ func (s CacheStatus) ApplyTo(header http.Header) {
 	header.Set(CacheStatusHeader, s.Value)
 	if s.Legacy != "" {
 		header.Set(FromCacheHeader, s.Legacy)
+	} else {
+		// Not served from cache: do not forward a stale or origin-supplied marker.
+		header.Del(FromCacheHeader)
 	}
 }
 
